@@ -19,6 +19,18 @@ type SpecEnv struct {
 	bound     map[string]*Val
 	calleeKey string
 	calleePost bool // evaluating a callee's ensures at a call site (assumed, not proved)
+	alias     map[string]string // macro parameter -> identifier it was instantiated with
+}
+
+func (e *SpecEnv) realName(n string) string {
+	for i := 0; i < 8; i++ {
+		a, ok := e.alias[n]
+		if !ok || a == n {
+			break
+		}
+		n = a
+	}
+	return n
 }
 
 func (e *SpecEnv) withBound(name string, v *Val) *SpecEnv {
@@ -31,6 +43,7 @@ func (e *SpecEnv) withBound(name string, v *Val) *SpecEnv {
 	if e.old != nil && e.old != e {
 		o := *e.old
 		o.bound = n.bound
+		o.alias = e.alias
 		if o.old == e.old {
 			o.old = &o
 		}
@@ -48,6 +61,25 @@ func (c *FnCtx) specEnvAt(st *State, pos token.Pos) *SpecEnv {
 		return func(name string) *Val {
 			if name == "result" && len(c.results) > 0 {
 				return s.vars[c.results[0]]
+			}
+			if c.con != nil && c.con.Iter != nil {
+				switch name {
+				case "nvisited":
+					// elements of S consumed: all of S if the callback never said stop, else up to the stopping one
+					np := c.ghostGet(s, c.traceGhost("nextpos."+c.con.Iter.Param, SInt))
+					last := c.ghostGet(s, c.traceGhost("lastret."+c.con.Iter.Param, SBool))
+					pe := &SpecEnv{c: c, st: c.pre, lookup: func(n string) *Val { return c.entry[n] }}
+					pe.old = pe
+					if c.con.Iter.Seq.Expr == nil {
+						return &Val{T: np, S: SInt}
+					}
+					S := c.specEval(pe, c.con.Iter.Seq.Expr)
+					return &Val{T: tIte(last, c.seqLen(S), np), S: SInt}
+				case "lastret":
+					if gv, ok := c.V.specs.GhostVars["lastret."+c.con.Iter.Param]; ok {
+						return &Val{T: c.ghostGet(s, gv), S: SBool}
+					}
+				}
 			}
 			if strings.HasPrefix(name, "result") {
 				if i, err := strconv.Atoi(name[6:]); err == nil && i < len(c.results) {
@@ -276,7 +308,21 @@ func (c *FnCtx) ghostGet(st *State, gv *GhostVar) string {
 	if t, ok := st.ghost[gv.Name]; ok {
 		return t
 	}
-	name := "ghost0_" + gv.Name
+	name := "ghost0_" + sanitizeSym(gv.Name)
+	if _, declared := c.decls.funs[name]; !declared && (strings.HasPrefix(gv.Name, "calls.") || strings.HasPrefix(gv.Name, "calls2.")) {
+		// call traces are empty on entry
+		c.declSeq(gv.Sort)
+		c.decls.declFun(name, nil, gv.Sort)
+		c.addFact(tEq(name, "empty_"+sortName(gv.Sort)))
+	}
+	if _, declared := c.decls.funs[name]; !declared && strings.HasPrefix(gv.Name, "nextpos.") {
+		c.decls.declFun(name, nil, gv.Sort)
+		c.addFact(tEq(name, "0"))
+	}
+	if _, declared := c.decls.funs[name]; !declared && strings.HasPrefix(gv.Name, "lastret.") {
+		c.decls.declFun(name, nil, gv.Sort)
+		c.addFact(name) // no invocation yet: "the last answer" is true
+	}
 	c.decls.declFun(name, nil, gv.Sort)
 	st.ghost[gv.Name] = name
 	if c.pre != nil {
@@ -385,6 +431,7 @@ func (c *FnCtx) specCall(env *SpecEnv, x *ast.CallExpr) *Val {
 		}
 		o := *env.old
 		o.bound = env.bound
+		o.alias = env.alias
 		return c.specEval(&o, x.Args[0])
 	case "len":
 		v := arg(0)
@@ -436,6 +483,28 @@ func (c *FnCtx) specCall(env *SpecEnv, x *ast.CallExpr) *Val {
 			q = "exists"
 		}
 		return &Val{T: fmt.Sprintf("(%s ((%s %s)) %s)", q, vn, so, body), S: SBool}
+	case "nextpos":
+		if id, ok := x.Args[0].(*ast.Ident); ok {
+			return &Val{T: c.ghostGet(env.st, c.traceGhost("nextpos."+env.realName(id.Name), SInt)), S: SInt}
+		}
+	case "calls", "calls2", "lastret":
+		id, ok := x.Args[0].(*ast.Ident)
+		if !ok {
+			c.specErr("%s: argument must be a parameter name", name)
+			return &Val{T: "false", S: SBool}
+		}
+		gn := name + "." + env.realName(id.Name)
+		gv, ok := c.V.specs.GhostVars[gn]
+		if !ok {
+			// never called on any path so far: empty trace
+			if name == "lastret" {
+				return &Val{T: "true", S: SBool}
+			}
+			so := seqSort(SInt)
+			c.declSeq(so)
+			return &Val{T: "empty_" + sortName(so), S: so}
+		}
+		return &Val{T: c.ghostGet(env.st, gv), S: gv.Sort}
 	case "constmap":
 		if bl, ok := x.Args[0].(*ast.BasicLit); ok {
 			sn, _ := strconv.Unquote(bl.Value)
@@ -511,6 +580,26 @@ func (c *FnCtx) specCall(env *SpecEnv, x *ast.CallExpr) *Val {
 		var args []*Val
 		for i := range x.Args {
 			args = append(args, arg(i))
+		}
+		if gf.Macro && len(args) == len(gf.Params) {
+			e2 := *env
+			e2.alias = map[string]string{}
+			for i, p := range gf.Params {
+				if id, ok := x.Args[i].(*ast.Ident); ok {
+					e2.alias[p] = env.realName(id.Name)
+				}
+			}
+			if env.old != nil && env.old != env {
+				o := *env.old
+				o.alias = e2.alias
+				if o.old == env.old {
+					o.old = &o
+				}
+				e2.old = &o
+			} else if env.old == env {
+				e2.old = &e2
+			}
+			return c.ghostCall(&e2, gf, args)
 		}
 		return c.ghostCall(env, gf, args)
 	}
